@@ -332,3 +332,17 @@ func firstLine(s string) string {
 func (rd *RunData) ClockStart(sn *Snap) int64 { return sn.ClockStart - simEpochNanos }
 
 const simEpochNanos = int64(1735689600) * 1e9
+
+// probes raised after the run has ended (history oracles) are collected here
+// and merged into the run's probe counters.
+var postProbes = map[string]int{}
+
+func probe(name string) { probeN(name, 1) }
+
+func probeN(name string, n int) {
+	if simrt.Active() {
+		simrt.ProbeN(name, n)
+		return
+	}
+	postProbes[name] += n
+}
